@@ -1933,6 +1933,11 @@ class ForAll(QuantifiedConditional):
                 solution_set = []
                 break
 
+        if solution_set is None:
+            # the universal variable has no values at all: the condition holds for all of them
+            yield OperationResult(outer_sources, False, self)
+            return
+
         # Yield the remaining bindings (non-universal) merged with the incoming sources
         yield from [
             OperationResult({**outer_sources, **sol}, False, self)
